@@ -1,10 +1,10 @@
-SPECIFICATION Spec
+SPECIFICATION MCSpec
 CONSTANTS
  UnitFix = FALSE
  Alphabet = {97, 110, 48, 95, 58, 34, 92, 10, 32, 233}
  MaxLen = 4
- PairLen = 1
- Scopes = {"names"}
- Inputs <- MCInputs
-INVARIANTS NoSyntaxError
+ PairLen = 2
+ PairAlphabet = {97, 110, 48, 34, 92, 10, 32}
+ Scopes = {"names","names_dist","keys","keys_global","values","values_dist","descs","matrix","pair_name_desc","pair_key_value","pair_values"}
+INVARIANTS NameGrammar LabelGrammar ValueEscaped DescEscaped NoSyntaxError Complete NameRuleOrCF08 NoForgery
 CHECK_DEADLOCK FALSE
